@@ -13,7 +13,16 @@ SetOf(q) == {q[k] : k \in 1..Len(q)}
 Scalars == {"A.x", "B.x", "C.y", "B.r"}
 Lists == {"A.l", "B.l", "C.m"}
 AccOf(c, v) == c # "B.r" \/ (v >= 0 /\ v <= 10)                   \* B.r = Range(0, 10)
-Links(c) == {<<e[1], e[2]>> : e \in SetOf(c.links)}
+\* the link table is PROJECTED from the real objects (their __sync_trait__ dictionaries) before and after every step;
+\* the specification computes what it must be afterwards, and that is what propagation is judged against
+RL(q) == {<<e[1], e[2]>> : e \in SetOf(q)}
+ExpLinks(c) ==
+  LET pre == RL(c.rl_pre) IN
+  CASE c.op = "link"    -> LinkAdd(pre, c.s, c.t, c.mutual = 1)
+    [] c.op = "unlink"  -> LinkRemove(pre, c.s, c.t, c.mutual = 1)
+    [] c.op = "collect" -> {e \in pre : e[1] \notin SetOf(c.dead) /\ e[2] \notin SetOf(c.dead)}
+    [] OTHER            -> pre
+Links(c) == ExpLinks(c)
 Live(c) == {x \in Scalars \cup Lists : x \notin SetOf(c.dead)}
 Clauses(c) ==
   \* unbounded ping-pong between partners shows as lists that blew up (the driver keeps them below 10 items)
@@ -24,6 +33,7 @@ Clauses(c) ==
       other == live \ kind
       frame == \A d \in other : c.post[d] = c.pre[d]
   IN (IF c.exc = "" \/ c.expect_exc = 1 THEN {} ELSE {"C20-raised"})
+     \cup (IF RL(c.rl_post) = ExpLinks(c) THEN {} ELSE {"C20-link-table"})
      \cup (IF frame THEN {} ELSE {"C20-unrelated-attribute-changed"})
      \cup (IF \E d \in live : c.calls[d] > 1 THEN {"C20-handler-called-more-than-once"} ELSE {})
      \cup
@@ -48,13 +58,17 @@ Clauses(c) ==
                \cup (IF \A d \in reach : c.pre[d] = c.pre[c.c] => c.post[d] = c.post[c.c] THEN {} ELSE {"C20-lists-diverged"})
                \cup (IF \A d \in kind \ reach : c.post[d] = c.pre[d] THEN {} ELSE {"C20-propagated-without-link"})
         [] c.op = "link" ->
-            LET v == c.pre[c.c]                         \* the source's value is pushed to the new partner c.d
-                ok == [d \in kind |-> (c.c \in Lists \/ AccOf(d, v)) /\ (d = c.d \/ c.pre[d] # v)]
-                \* c.links already contains the new link(s); the reverse half of a mutual link is installed only AFTER
-                \* the partner received the value, so the push does not travel back through it
-                reach == ReachFrom(links \ {<<c.d, c.c>>}, ok, {c.d}, 8)
-                changed == c.pre[c.d] # v
-            IN IF \A d \in kind : c.post[d] = (IF d \in reach /\ changed /\ ok[c.d] THEN v ELSE c.pre[d])
+            LET push == Push(RL(c.rl_pre), c.s, c.t, c.mutual = 1) IN
+            IF push = <<>> THEN (IF \A d \in live : c.post[d] = c.pre[d] THEN {} ELSE {"C20-relink-changed-values"})
+            ELSE
+            LET from == push[1]  to == push[2]
+                v == c.pre[from]                        \* the source's value is pushed to the new partner
+                ok == [d \in kind |-> (from \in Lists \/ AccOf(d, v)) /\ (d = to \/ c.pre[d] # v)]
+                \* the reverse half of a mutual link is installed only AFTER the partner received the value, so the push
+                \* does not travel back through it
+                reach == ReachFrom(links \ {<<to, from>>}, ok, {to}, 8)
+                changed == c.pre[to] # v
+            IN IF \A d \in kind : c.post[d] = (IF d \in reach /\ changed /\ ok[to] THEN v ELSE c.pre[d])
                THEN {} ELSE {"C20-link-did-not-synchronise"}
         [] c.op \in {"unlink", "collect"} ->
             IF \A d \in live : c.post[d] = c.pre[d] THEN {} ELSE {"C20-unlink-changed-values"})
